@@ -105,6 +105,12 @@ def isLogged (c : PCase) (t : Nat) (r : Request) : Bool :=
 
 def payloadBytes (c : PCase) : Bytes := (c.payload.getD []).flatten
 
+/-- what the upgraded echo service writes before it reads (parameters of the last, upgrading call) -/
+def PCase.greeting (c : PCase) : Bytes :=
+  match c.fs.getLast? with
+  | some (.req r) => if r.method == "org.example.up.Start" then upGreeting r else []
+  | _ => []
+
 /-- per service, the logged calls as a sorted multiset: a oneway call travels on its own
     connection and may be executed after the call that follows it -/
 def logSx (entries : List (Nat × List Request)) : List Sx :=
@@ -125,7 +131,7 @@ def proxyObs (c : PCase) : Sx :=
     let getsPayload := endsUpgraded && (routed.getLast?.map (·.target) == some t)
     let upgradedHere := match o.status with | .upgraded i => i == upName | _ => false
     let allAnswered := o.consumed == mine.length
-    let raw : Bytes := if getsPayload && upgradedHere && allAnswered then (payloadBytes c).map upTransform else []
+    let raw : Bytes := if getsPayload && upgradedHere && allAnswered then c.greeting ++ (payloadBytes c).map upTransform else []
     let seen : Bytes := if getsPayload && upgradedHere && allAnswered then payloadBytes c else []
     let calls := (mine.take o.consumed).filterMap fun f => match f with
       | .req r => if isLogged c t r then some r else none
@@ -145,7 +151,7 @@ def proxyObs (c : PCase) : Sx :=
     -- half-close (aebf686) and forwards what the service still answers
     let out := o.groups.flatten
     let upgradedHere := match o.status with | .upgraded i => i == upName | _ => false
-    let raw : Bytes := if !early && upgradedHere && endsUpgraded then (payloadBytes c).map upTransform else []
+    let raw : Bytes := if !early && upgradedHere && endsUpgraded then c.greeting ++ (payloadBytes c).map upTransform else []
     let ending := if early then "closed" else match o.status with
       | .eof => "open"
       | .err => "closed"
@@ -168,20 +174,28 @@ def proxyObs (c : PCase) : Sx :=
     let bo := Proxy.bridge w (decOf c.dec) (if dropAll || stream.isEmpty then [] else [stream])
     let o : Proxy.Out := { groups := bo.groups, sent := bo.sent, status := bo.status, consumed := 0 }
     let pipelinedPayload := c.client == "pipelined"
+    -- a service that speaks first: its greeting comes in one write with the reply to the upgrading
+    -- call (27 bytes with the NUL); what the bridge reads ahead with that reply is dropped
+    let greet := c.greeting
+    let ra := Proxy.readAheadOf 27 greet.length
+    -- a client that waits for the whole greeting before it sends anything then waits in vain
+    let clientGivesUp := !pipelinedPayload && ra > 0
     let pump : Option Proxy.Pumped := match bo.status with
       | .upgraded _ (some i) =>
         if i == upName then
-          some (if pipelinedPayload then Proxy.upgradedPump (fun b => b.map upTransform) (payloadBytes c) []
-                else Proxy.upgradedPump (fun b => b.map upTransform) [] (c.payload.getD []))
+          some (if pipelinedPayload then Proxy.upgradedPump (fun b => greet ++ b.map upTransform) (payloadBytes c) [] ra
+                else if clientGivesUp then Proxy.upgradedPump (fun b => greet ++ b.map upTransform) [] [] ra
+                else Proxy.upgradedPump (fun b => greet ++ b.map upTransform) [] (c.payload.getD []) ra)
         else none
       | _ => none
     let raw : Bytes := match pump with | some p => p.toClient | none => []
     let upB : Bytes := match pump with | some p => p.toService | none => []
+    let gaveUp := clientGivesUp && pump.isSome
     let ending := match o.status with
       | .eof => if early then "closed" else "open"
       | .error => "closed"
       | .hang => "timeout"
-      | .upgraded _ _ => if early then "closed" else "open"
+      | .upgraded _ _ => if early then "closed" else if gaveUp then "timeout" else "open"
     let exit := if c.mode == "bridge2" then "0" else match o.status with
       | .eof => "0"
       | .error => "1"
@@ -259,7 +273,7 @@ def proxyPred (prop caseLine obsLine : String) : String :=
       let pipelinedPayload := c.payload.isSome && c.client == "pipelined" && !c.directMode
       if !c.tail.isEmpty then "ok" else   -- an unterminated last message is not a call: model tie only
       let nf : String → ProxyPred.PRep := fun i => { text := render (ofReply (errInterfaceNotFound i)), continues := false }
-      match ProxyPred.P_C18 nf c.mode c.client c.payload.isSome pipelinedPayload c.routed o with
+      match ProxyPred.P_C18 nf c.mode c.client c.payload.isSome pipelinedPayload c.routed o c.greeting with
       | none => "ok"
       | some r => "fail " ++ r
     | _, _ => "fail unparsable-case-or-observation"
